@@ -393,6 +393,13 @@ def shapes(tier, seed):
         seen.add(name)
         out.append(Shape(name, fn, kw, modules=MODS, **skw))
 
+    # ---- trimming of qubits that a circuit leaves in a fixed basis state (trim_trivial_circuit): decided in full under C14;
+    # the two-gate wires whose classification is easiest to get wrong are repeated here because they are circuit transformations
+    from harness import c14 as _c14
+    for lay in (["RY.X", "E", "E"], ["H.X", "E", "E"], ["RX.X", "E", "E"], ["RX.RZ", "E", "E"], ["RX.Z", "E", "E"], ["RZ.X", "E", "E"], ["X.RXpi", "E", "E"]):
+        out.append(Shape("trim_trivial/" + "|".join(lay), _c14.h_trim,
+                         dict(layout=lay, words=[[(0, "Z")], [(0, "Z"), (1, "X")], [(0, "X"), (2, "Z")], [(0, "Y")]]),
+                         modules=MODS + tuple(_c14.MODS), max_paths=64, policy=dict(mod_range=(-4, 4))))
     # ---- (a) inverse: fixed core covering every invertible gate kind + seeded sample with index patterns
     core_inv = [
         ([("H", (0,), None, None), ("S", (1,), None, None), ("T", (0,), None, None), ("CNOT", (1,), (0,), None)], 3),
